@@ -968,11 +968,11 @@ impl Archive {
         let file_count = if let Some(bet) = &self.bet_table {
             bet.header.file_count as usize
         } else if let Some(block_table) = &self.block_table {
-            // Count non-empty entries in block table
+            // Count existing entries in block table (a zero-length file is still a file)
             block_table
                 .entries()
                 .iter()
-                .filter(|entry| entry.file_size != 0)
+                .filter(|entry| entry.exists())
                 .count()
         } else {
             0
